@@ -56,7 +56,7 @@ class Output(OutputData, Model):
 
         raise NotImplementedError("v_code <%s> not recognized" % v_code)
 
-    def to_output_addr(self, item, check=False):
+    def to_output_addr(self, item, check=False, a=None):
         """
         Convert DAE-based variable address to relative output addresses.
 
@@ -71,7 +71,8 @@ class Output(OutputData, Model):
             An array containing the indices into the output matrix
         """
 
-        addr = item.a
+        # `a` holds sub-indices into the devices of `item`
+        addr = item.a if a is None else item.a[a]
         v_code = item.v_code
 
         bool_intersect = self.in1d(addr, v_code)
@@ -82,7 +83,7 @@ class Output(OutputData, Model):
                 logger.info("<%s.%s> not found in <Output>, skipped.",
                             item.owner.class_name, item.name)
 
-            if len(output_addr) != len(item.a):
+            if len(output_addr) != len(addr):
                 logger.info("<%s.%s> is partially stored by <Output>. Showing all saved data.",
                             item.owner.class_name, item.name)
 
